@@ -17,7 +17,9 @@ import types
 
 from . import vk as vkmod
 
-REPO_SRC = "/repo/src"
+# The code under test: /repo by default (VFW_REPO lets background sweeps and seed tests point at a scratch worktree)
+REPO = os.environ.get("VFW_REPO", "/repo").rstrip("/")
+REPO_SRC = REPO + "/src"
 if REPO_SRC not in sys.path:
     sys.path.insert(0, REPO_SRC)
 
@@ -233,6 +235,22 @@ def patched(pairs):
 
 class HarnessEscape(vkmod.HarnessError):
     pass
+
+
+_REAL_PROCESS_API = {"waitpid": os.waitpid, "killpg": os.killpg, "kill": os.kill, "fork": os.fork, "_fork_exec": subprocess._fork_exec}
+
+
+@contextlib.contextmanager
+def unguarded():
+    """Harness-side code that legitimately needs real processes during a virtual run (fake-git fallback)."""
+    saved = {k: getattr(subprocess if k == "_fork_exec" else os, k) for k in _REAL_PROCESS_API}
+    try:
+        for k, v in _REAL_PROCESS_API.items():
+            setattr(subprocess if k == "_fork_exec" else os, k, v)
+        yield
+    finally:
+        for k, v in saved.items():
+            setattr(subprocess if k == "_fork_exec" else os, k, v)
 
 
 def _escape(name):
